@@ -64,6 +64,8 @@ def combos(e, tier):
 
 
 def reps_of(e):
+    if e.nddata == 'only':               # the entry takes nothing but an NDData
+        return ND_REPS
     return tuple(r for r in REPS if e.nddata or r not in ND_REPS)
 
 
@@ -388,6 +390,38 @@ def _data_properties(env, mask, background):
     cat = data_properties(d, mask=env.maskpix[cut] if mask == 'some' else None, background=bkg)
     return collections.OrderedDict((k, getattr(cat, k)) for k in ('segment_flux', 'min_value', 'max_value', 'xcentroid', 'ycentroid',
                                                                    'semimajor_sigma', 'orientation', 'background_mean'))
+
+
+# ------------------------------------------------------------------------------------------------------------------
+# photutils.psf.extract_stars: takes an NDData only, so there is no plain-array call to compare with; the float64
+# "call" is the plain model of what the docs promise: the size x size cutout around each star and the weights
+# 1 / sigma (0 on masked pixels), whatever type of uncertainty holds sigma
+# ------------------------------------------------------------------------------------------------------------------
+@entry('extract_stars', nddata='only', axes=[('uncertainty', ('std', 'var', 'ivar')), ('mask', ('none', 'some'))], powers={})
+def _extract_stars(env, uncertainty, mask):
+    half = 4
+    m = env.maskpix if mask == 'some' else None
+    if env.rep == 'f8':
+        out = collections.OrderedDict()
+        w = 1.0 / env.err
+        if m is not None:
+            w[m] = 0.0
+        for i, (x, y) in enumerate(zip(R.XPOS, R.YPOS)):
+            sl = (slice(int(y) - half, int(y) + half + 1), slice(int(x) - half, int(x) + half + 1))
+            out[f'star{i}.data'], out[f'star{i}.weights'] = env.sub[sl].copy(), w[sl].copy()
+            out[f'star{i}.cutout_center'] = np.array([float(half), float(half)])
+        return out
+    from astropy.nddata import CCDData, NDData
+    from astropy.table import Table
+    from photutils.psf import extract_stars
+    nd = (CCDData if env.rep == 'ccddata' else NDData)(env.sub.copy(), uncertainty=R.nddata_uncertainty((uncertainty,), env.err, env.unit),
+                                                      mask=None if m is None else m.copy(), unit=env.unit)
+    stars = extract_stars(nd, Table({'x': R.XPOS, 'y': R.YPOS}), size=2 * half + 1)
+    out = collections.OrderedDict()
+    for i, st in enumerate(stars.all_stars):
+        out[f'star{i}.data'], out[f'star{i}.weights'] = np.asarray(st.data), np.asarray(st.weights)
+        out[f'star{i}.cutout_center'] = np.asarray(st.cutout_center, float)
+    return out
 
 
 def describe(tier):
